@@ -565,6 +565,9 @@ func boundOfArg(x ast.BaseTerm, varRanges map[ast.Variable]ast.BaseTerm, nameTri
 			return symbols.NewListType(symbols.UpperBound(nil /*TODO*/, argTypes))
 
 		case symbols.Map.Symbol:
+			if len(z.Args)%2 != 0 {
+				return symbols.EmptyType // malformed: keys and values come in pairs.
+			}
 			var keyTpes []ast.BaseTerm
 			var valTpes []ast.BaseTerm
 			for i := 0; i < len(z.Args); i++ {
@@ -575,8 +578,14 @@ func boundOfArg(x ast.BaseTerm, varRanges map[ast.Variable]ast.BaseTerm, nameTri
 			return symbols.NewMapType(symbols.UpperBound(nil /*TODO*/, keyTpes), symbols.UpperBound(nil /*TODO*/, valTpes))
 
 		case symbols.Struct.Symbol:
+			if len(z.Args)%2 != 0 {
+				return symbols.EmptyType // malformed: field names and values come in pairs.
+			}
 			var fields []ast.BaseTerm
 			for i := 0; i < len(z.Args); i++ {
+				if c, ok := z.Args[i].(ast.Constant); !ok || c.Type != ast.NameType {
+					return ast.AnyBound // a computed field name: the struct type is not known statically.
+				}
 				fields = append(fields, z.Args[i])
 				i++
 				fields = append(fields, boundOfArg(z.Args[i], varRanges, nameTrie))
@@ -585,6 +594,9 @@ func boundOfArg(x ast.BaseTerm, varRanges map[ast.Variable]ast.BaseTerm, nameTri
 			return symbols.NewStructType(fields...)
 
 		case symbols.StructGet.Symbol:
+			if len(z.Args) != 2 {
+				return symbols.EmptyType // the arity of functions in a rule head has not been checked.
+			}
 			structTpe := boundOfArg(z.Args[0], varRanges, nameTrie)
 			if !symbols.IsStructTypeExpression(structTpe) {
 				return symbols.EmptyType
@@ -600,6 +612,13 @@ func boundOfArg(x ast.BaseTerm, varRanges map[ast.Variable]ast.BaseTerm, nameTri
 			return fieldTpe
 
 		case symbols.Tuple.Symbol:
+			// fn:tuple() is an error and fn:tuple(x) is x; a tuple type needs two components.
+			if len(z.Args) == 0 {
+				return symbols.EmptyType
+			}
+			if len(z.Args) == 1 {
+				return boundOfArg(z.Args[0], varRanges, nameTrie)
+			}
 			var argTypes []ast.BaseTerm
 			for _, arg := range z.Args {
 				argTypes = append(argTypes, boundOfArg(arg, varRanges, nameTrie))
